@@ -2,6 +2,7 @@ package world
 
 import (
 	"context"
+	"os"
 
 	"git.defalsify.org/vise.git/db"
 	fsdb "git.defalsify.org/vise.git/db/fs"
@@ -91,6 +92,10 @@ func (w *World) Close() {
 	if w.Disk != nil {
 		w.Disk.Unmount()
 	}
+	for _, d := range w.scratchDirs {
+		os.RemoveAll(d)
+	}
+	w.scratchDirs = nil
 }
 
 // ShareHandle makes every session of the world (and every engine built for it) use ONE store
